@@ -333,6 +333,12 @@ def conc_schedules(quick):
                 # both begun before either answer; and the second begun after the first's answer (sequential control)
                 out.append([a, b, ("End", a1), ("Probe",), ("End", a2), ("Probe",), ("SubBegin", 3, "g3"), ("End", "ok"), ("Probe",)])
                 out.append([a, ("End", a1), b, ("End", a2), ("Probe",)])
+    # two overlapping unsubscribes of one group, a subscribe between their completions (the freed index must not be freed twice)
+    for a1 in ANSWERS:
+        for a2 in ANSWERS:
+            out.append([("UnsubBegin", 1, "g1"), ("UnsubBegin", 2, "g1"), ("End", a1), ("SubBegin", 3, "g3"), ("End", a2), ("End", "ok"), ("Probe",),
+                        ("SubBegin", 4, "g2"), ("End", "ok"), ("Probe",), ("SubBegin", 5, "g1"), ("End", "ok"), ("Probe",)])
+            out.append([("UnsubBegin", 1, "g1"), ("UnsubBegin", 2, "g1"), ("End", a1), ("End", a2), ("Probe",), ("SubBegin", 3, "g3"), ("End", "ok"), ("Probe",)])
     # a caller cancelled while its write is still queued (not yet with the NCP): nothing of it may happen later
     for a, b in calls2:
         for who in (1, 2):
